@@ -11,7 +11,7 @@ Mirrors, statement by statement where practical,
 * `ops/signature.rs`             `v2_check`, `v2_check_header_auth`, `v2_check_presigned_url`
 * `http/ordered_headers.rs`      `from_headers`, `get_unique`, `get_all`
 * `http/ordered_qs.rs`           `parse`, `has`, `get_unique`
-* `utils::stable_sort_by_first`, `urlencoding::decode`, `form_urlencoded::parse`
+* `utils::stable_sort_by_first`, `form_urlencoded::parse`
 
 HMAC-SHA1, base64, the credential table and the clock are parameters.
 Core Lean only. (The helpers `bLt`, `sortByFirst`, `pctDecode`, `formParse` duplicate what the SigV4
@@ -87,8 +87,7 @@ def hexDigitVal (c : UInt8) : Option Nat :=
   else if 97 ≤ n ∧ n ≤ 102 then some (n - 87)
   else none
 
-/-- `urlencoding::decode_binary` and `percent_encoding::percent_decode`: `%XY` with two hex digits
-    decodes, any other `%` stays literal -/
+/-- `percent_encoding::percent_decode`: `%XY` with two hex digits decodes, any other `%` stays literal -/
 def pctDecode : Bytes → Bytes
   | [] => []
   | c :: a :: b :: rest =>
@@ -98,14 +97,6 @@ def pctDecode : Bytes → Bytes
       | _, _ => c :: pctDecode (a :: b :: rest)
     else c :: pctDecode (a :: b :: rest)
   | c :: rest => c :: pctDecode rest
-
-/-- `urlencoding::decode`: without a `%` the input `&str` itself is returned (`Cow::Borrowed`); otherwise
-    `Err` when the decoded bytes are not UTF-8 -/
-def urlDecode (s : Bytes) : Option Bytes :=
-  if s.all (· ≠ 37) then some s
-  else
-    let d := pctDecode s
-    if utf8Valid d then some d else none
 
 /-- split at every `sep` (`slice::split`) -/
 def splitOn (sep : UInt8) : Bytes → List Bytes
@@ -198,16 +189,14 @@ structure Presigned where
   signature : Bytes
 deriving DecidableEq, Repr
 
-/-- `PresignedUrlV2::parse` on the sorted query pairs -/
+/-- `PresignedUrlV2::parse` on the sorted query pairs: the three values are taken as `OrderedQs` holds
+    them (percent-decoded once, by the query parser) -/
 def parsePresigned (qs : Pairs) : Option Presigned :=
   match getUnique qs (v2b!"AWSAccessKeyId"), getUnique qs (v2b!"Expires"), getUnique qs (v2b!"Signature") with
   | some ak, some ex, some sg =>
     match parseUnixTimestamp ex with
     | none => none
-    | some t =>
-      match urlDecode sg with
-      | none => none
-      | some sg' => some ⟨ak, t, sg'⟩
+    | some t => some ⟨ak, t, sg⟩
   | _, _, _ => none
 
 /-! ## `create_string_to_sign` -/
